@@ -52,6 +52,10 @@ class AbstractDiscreteTimeOnlineInterpreter(AbstractOnlineInterpreter, DiscreteT
     def reset(self):
         super(AbstractDiscreteTimeOnlineInterpreter, self).reset()
 
+        # the variables take their initial values again: an update() may leave a variable out
+        for var_name in self.ast.free_vars:
+            self.ast.var_object_dict[var_name] = self.ast.create_var_from_name(var_name)
+
         self.update_counter = int(0)
         self.previous_time = float(0.0)
         self.sampling_violation_counter = int(0)
